@@ -27,6 +27,11 @@ CHECKS = {
    text="TLC enumerates every pool state of a boundary grammar (0..3 upstreams, 1-2 peers each from boundary peer states, connection and failure limits on/off); the real Select of all six policies (random_choose with k=2,3,pool+1) runs on each pool built in-package, repeatedly for the random ones, and TLC judges every observed result against Allowed(policy,pool) of L4LB (available iff one exists; first = earliest; least_conn = fewest connections; never a panic). The round_robin counter is model-checked (RRInv) over all selection sequences interleaved with availability flips (3-4 upstreams), every sequence is replayed on one real RoundRobinSelection / IPHashSelection instance and must equal the model (round_robin) or satisfy determinism and stability under upstream removal (ip_hash), judged by TLC.",
    note="pool states are constructed white-box through an overlay accessor; pools above 3 upstreams / 5 in sequences are not enumerated",
    technique="TLA+ contract of the selection policies; TLC-enumerated pool states and selection sequences replayed on the real policies; trace validation"),
+
+ "C03": dict(level="model_checking", design="5 C03, 4.5",
+   text="TLC checks UpExact/DownOrdered/HalfCloseSeen and the liveness property Cleanup (handler returns, every upstream connection closed, nothing lost when both ends finish gracefully) on the code-shaped model of Handler.proxy (pump, one copier per upstream connection, main) with two upstream connections for every combination of client/upstream half-close, close and reset; the real handler relays between loopback TCP client and upstream servers for a TLC-enumerated grid (who finishes first and how x payload sizes up to 1 MiB x chunkings x 1-2 peers x bytes prefetched into the matching buffer) and TLC judges the observations against clauses P1-P5 of L4ProxyAbs.",
+   note="loopback TCP only (TLS / Unix sockets not exercised); kernel TCP trusted; timing slack 15 s for return, 3 s for closure",
+   technique="TLA+ model of the proxy relay goroutines checked with TLC (safety + liveness); trace validation of the real handler over loopback TCP"),
 }
 NA = {
 }
